@@ -144,6 +144,7 @@ int osm_stage_start(pid_t *pidp, int *fd, int last);
 void osm_exit(int);
 void osm_fatal(void);
 void osm_warn(void);
+void osm_oom(const char *fmt, ...);
 
 #ifndef OS_MODEL_IMPL
 #define posix_spawnp(p, f, fa, at, av, ev)        osm_posix_spawnp(p, f, fa, at, av, ev)
